@@ -51,13 +51,19 @@ def findChanged (H : Nat → Nat) (paths : List Path) (fs : Fs) (data : Data) : 
    fun p => if p ∈ paths then (stepPath H (data p) (fs p)).2 else data p)
 
 /-- `Server._find_changed(sources, changed_paths)` with `previous_sources = prev`:
-    (changed, removed) as lists of (module, path). -/
-def changedModules (sources prev : List (Mod × Path)) (changedPaths : List Path) :
+    (changed, removed) as lists of (module, path).  `pathRule` selects the version of the code: `true` = with
+    the block "anything whose file changed while the module name stayed (stub added or removed)" (/repo since
+    a1da927), `false` = without it (the harness probes the real function and passes the flag). -/
+def changedModules (pathRule : Bool) (sources prev : List (Mod × Path)) (changedPaths : List Path) :
     List (Mod × Path) × List (Mod × Path) :=
   let changed := sources.filter (fun s => changedPaths.contains s.2)
   let removed := prev.filter (fun s => !(sources.map (·.1)).contains s.1)
   -- add_explicitly_new
   let changed := changed ++ sources.filter (fun s => !(prev.map (·.1)).contains s.1 && !changed.contains s)
+  -- same module, other file (modules of `prev` are distinct, so `last_path[s.module]` is the one entry)
+  let changed := if pathRule then
+      changed ++ sources.filter (fun s => prev.any (fun q => q.1 == s.1 && q.2 != s.2) && !changed.contains s)
+    else changed
   -- "anything that has had its module path change because of added or removed __init__s":
   -- same path, different module name
   let moved := sources.filter (fun s => prev.any (fun q => q.2 == s.2 && q.1 != s.1))
